@@ -5,7 +5,7 @@
   Dirk/Model/Scatter.lean (§8), Dirk/Model/Crashes.lean (§12), Dirk/Model/Import.lean (§13) and Dirk/Model/Instance.lean
   (§14: the signer's batch signing loop, with the loop bound that Model/ShortRules.lean rests on; §15: the signer's
   pre-check; §16: the ruler's `RunRules` — validation, duplicate-key refusal, path choice — with the lock protocol of
-  Dirk/Model/LockTrace.lean), for all inputs.
+  Dirk/Model/LockTrace.lean) and Dirk/Model/Lister.lean (§17: the lister's `ListAccounts`), for all inputs.
 
   A semantic edit of a Go kernel changes the regenerated definition and one of these theorems stops building;
   a Go construct outside the translator's fragment replaces the definition by `kernelUntranslatable_…`, and this
@@ -19,6 +19,7 @@ import Dirk.Model.Crashes
 import Dirk.Model.Import
 import Dirk.Model.Instance
 import Dirk.Model.LockTrace
+import Dirk.Model.Lister
 import Dirk.Gen.Facts
 import Dirk.Gen.Kernels
 
@@ -1525,5 +1526,194 @@ theorem runRules_shape_is_source :
     Gen.runRulesLockProtocolGen =
       ["PreLock", "for-each-in-order: Lock(key48(PubKey)); defer Unlock(key48(PubKey))", "PostLock", "return runRules"] := by
   decide
+
+/-! ## 17. the lister's `ListAccounts` (services/lister/standard/listaccounts.go) ↔ `listerAnchor`, `listerPath`, `listAccounts` (C18) -/
+
+/-- **The anchoring.**  The string the Go hands to `regexp.Compile` is the string the model parses: the model's
+    STRING-level function `listerAnchor` (Model/Lister.lean; `listerPath` parses `listerAnchor a`, and the run-time
+    hypothesis `ListerShapeOKGen` of Model/ListerShape.lean is about `ReParse.parse (listerAnchor pat)`), not the AST-level
+    `listerAnchorRe`.  Definitional: both are the same two `let`s. -/
+theorem listAnchor_eq_model (s : String) : Gen.listAnchorGen s = listerAnchor s := rfl
+
+/-- a `^` is put in front unless there is one, then a `$` behind unless there is one -/
+example (s : String) (h1 : s.startsWith "^" = false) (h2 : ("^" ++ s).endsWith "$" = false) :
+    Gen.listAnchorGen s = "^" ++ s ++ "$" := by
+  simp [Gen.listAnchorGen, h1, h2]
+
+example (s : String) (h1 : s.startsWith "^" = true) (h2 : s.endsWith "$" = true) : Gen.listAnchorGen s = s := by
+  simp [Gen.listAnchorGen, h1, h2]
+
+/-- what `listerPath` says about a path, in `listPathGen`'s code: 0 skipped, 1 every account of the wallet, 2 those the
+    expression matches -/
+def listPathCode : Option (String × Option Re) → Nat
+  | none => 0
+  | some (_, none) => 1
+  | some (_, some _) => 2
+
+/-- `listPathGen` with its inputs taken from the model: `e2wallet.WalletAndAccountNames` is `walletAndAccount` (an error is
+    `none`; then the other inputs are never read — `listPath_namesErr`), `regexp.Compile` of the anchored account part is
+    `ReParse.parse (Gen.listAnchorGen a)`; the two fetches' outcomes are given -/
+def listPathGenOf (path : String) (fetchWalletErr fetchAccountsErr : Bool) : Nat :=
+  match walletAndAccount path with
+  | none => Gen.listPathGen true false false false fetchWalletErr fetchAccountsErr
+  | some (w, a) =>
+    Gen.listPathGen false w.isEmpty a.isEmpty (ReParse.parse (Gen.listAnchorGen a)).isNone fetchWalletErr fetchAccountsErr
+
+/-- after an error of `WalletAndAccountNames` nothing else is read -/
+theorem listPath_namesErr (we ae ce fw fa : Bool) : Gen.listPathGen true we ae ce fw fa = 0 := by
+  simp [Gen.listPathGen]
+
+/-- an error of either fetch skips the path, whatever the rest -/
+theorem listPath_fetchErr (ne we ae ce fa : Bool) :
+    Gen.listPathGen ne we ae ce true fa = 0 ∧ Gen.listPathGen ne we ae ce false true = 0 := by
+  cases ne <;> cases we <;> cases ae <;> cases ce <;> cases fa <;> simp [Gen.listPathGen]
+
+/-- in a configuration in which the wallet is found and its accounts can be read, the translated path body computes the
+    code of `listerPath path` -/
+theorem listPathGenOf_eq_code (path : String) :
+    listPathGenOf path false false = listPathCode (listerPath path) := by
+  unfold listPathGenOf listerPath
+  cases walletAndAccount path with
+  | none => simp [Gen.listPathGen, listPathCode]
+  | some wa =>
+    obtain ⟨w, a⟩ := wa
+    simp only [listAnchor_eq_model]
+    by_cases hw : w.isEmpty = true
+    · simp [Gen.listPathGen, listPathCode, hw]
+    · by_cases ha : a.isEmpty = true
+      · simp [Gen.listPathGen, listPathCode, hw, ha]
+      · cases hp : ReParse.parse (listerAnchor a) <;> simp [Gen.listPathGen, listPathCode, hw, ha]
+
+/-- **One path.**  With the wallet found and its accounts readable: the translated path body answers 0 exactly when the
+    model lists nothing for this path for a reason other than the per-account filter (`listerPath path = none`: malformed
+    path, empty wallet name, or the anchored account part does not compile), 1 exactly when every account of the wallet is a
+    candidate, 2 exactly when the candidates are those a compiled expression matches; and then the wallet is the first
+    result of `walletAndAccount` and the expression is the parse of the Go's own anchored string (`none` for an empty
+    account part).  When a fetch fails the Go skips the path (`listPath_fetchErr`); the MODEL has no such outcome in
+    `listerPath`: it folds "wallet unknown" into the account filter — see `listPath_unknown_wallet_folded`. -/
+theorem listPath_eq_model (path : String) :
+    (listPathGenOf path false false = 0 ↔ listerPath path = none) ∧
+    (listPathGenOf path false false = 1 ↔ ∃ w, listerPath path = some (w, none)) ∧
+    (listPathGenOf path false false = 2 ↔ ∃ w r, listerPath path = some (w, some r)) ∧
+    (∀ w re?, listerPath path = some (w, re?) → ∃ a, walletAndAccount path = some (w, a) ∧ w.isEmpty = false ∧
+      re? = if a.isEmpty then none else ReParse.parse (Gen.listAnchorGen a)) := by
+  rw [listPathGenOf_eq_code]
+  refine ⟨?_, ?_, ?_, ?_⟩
+  · cases listerPath path with
+    | none => simp [listPathCode]
+    | some p => obtain ⟨w, re?⟩ := p; cases re? <;> simp [listPathCode]
+  · cases listerPath path with
+    | none => simp [listPathCode]
+    | some p => obtain ⟨w, re?⟩ := p; cases re? <;> simp [listPathCode]
+  · cases listerPath path with
+    | none => simp [listPathCode]
+    | some p => obtain ⟨w, re?⟩ := p; cases re? <;> simp [listPathCode]
+  · intro w re? h
+    unfold listerPath at h
+    cases hwa : walletAndAccount path with
+    | none => simp [hwa] at h
+    | some wa =>
+      obtain ⟨w', a⟩ := wa
+      simp only [hwa] at h
+      by_cases hw : w'.isEmpty = true
+      · simp [hw] at h
+      · by_cases ha : a.isEmpty = true
+        · simp [hw, ha] at h
+          exact ⟨a, by rw [h.1], by simpa [h.1] using hw, by simp [ha, h.2]⟩
+        · cases hp : ReParse.parse (listerAnchor a) with
+          | none => simp [hw, ha, hp] at h
+          | some r =>
+            simp [hw, ha, hp] at h
+            exact ⟨a, by rw [h.1], by simpa [h.1] using hw, by simp [ha, listAnchor_eq_model, hp, h.2]⟩
+
+/-- **"Wallet unknown" is folded into the account filter.**  The Go skips a path whose wallet cannot be fetched
+    (`listPath_fetchErr`: code 0); the model's `listerPath` does not look at the configuration at all, and `listAccounts`
+    then filters `cfg.accounts` by `a.wallet == w`: for a wallet that does not exist (`walletExists cfg w = false`) no account
+    passes, so the path contributes nothing — the same listing as the Go's skip. -/
+theorem listPath_unknown_wallet_folded (cfg : Config) (client path w : String) (re? : Option Re)
+    (h : listerPath path = some (w, re?)) (hw : walletExists cfg w = false) :
+    listAccounts cfg client [path] = [] ∧
+    Gen.listPathGen false false false false true false = 0 := by
+  refine ⟨?_, by simp [Gen.listPathGen]⟩
+  unfold walletExists at hw
+  rw [Bool.or_eq_false_iff] at hw
+  have hnone : cfg.accounts.filter (fun a => a.wallet == w) = [] := by
+    rw [List.filter_eq_nil_iff]
+    intro a ha hc
+    have := hw.2
+    rw [List.any_eq_false] at this
+    exact this a ha hc
+  simp only [listAccounts, List.flatMap_cons, List.flatMap_nil, List.append_nil, h, hnone, List.filter_nil]
+
+/-- **One account.**  For an account `a` of the path's wallet, with the model's instantiation of the opaque calls — the
+    expression is `re?` (`hasRegex := re?.isSome`, `regexMatches := Re.search r a.name`, read only where there is one),
+    `checkAccess` is the checker's `check` for the name and the action the GO hands it (`listCheckedNameFnGen`,
+    `listActionGen`), every model account provides a public key, the rules' list check approves — the translated account
+    body appends `a` exactly when the model's filter predicate in `listAccounts` keeps it. -/
+theorem listAccount_eq_model (cfg : Config) (client : String) (re? : Option Re) (a : Account) :
+    Gen.listAccountGen re?.isSome (re?.all (fun r => Re.search r a.name))
+        (check cfg.access client (Gen.listCheckedNameFnGen a.wallet a.name) Gen.listActionGen) true true =
+      ((match re? with
+        | none => true
+        | some r => Re.search r a.name) &&
+       check cfg.access client (a.wallet ++ "/" ++ a.name) opAccess) := by
+  have hact : Gen.listActionGen = opAccess := by decide
+  simp only [Gen.listCheckedNameFnGen, hact]
+  cases re? <;> cases check cfg.access client (a.wallet ++ "/" ++ a.name) opAccess <;>
+    simp [Gen.listAccountGen]
+
+/-- each of the five inputs matters, in the order of the source: no match, no access, no public key or no approval
+    each keep the account out; without an expression the match is not consulted -/
+example : Gen.listAccountGen true true true true true = true ∧ Gen.listAccountGen false false true true true = true ∧
+    Gen.listAccountGen true false true true true = false ∧ Gen.listAccountGen true true false true true = false ∧
+    Gen.listAccountGen true true true false true = false ∧ Gen.listAccountGen true true true true false = false := by
+  decide
+
+/-- **The listing, through the translated pieces**: `listAccounts` is, path by path in order, the accounts of the
+    path's wallet (in stored order) that the translated account body appends -/
+theorem listAccounts_eq_gen (cfg : Config) (client : String) (paths : List String) :
+    listAccounts cfg client paths = paths.flatMap (fun path =>
+      match listerPath path with
+      | none => []
+      | some (w, re?) =>
+        (cfg.accounts.filter (fun a => a.wallet == w)).filter (fun a =>
+          Gen.listAccountGen re?.isSome (re?.all (fun r => Re.search r a.name))
+            (check cfg.access client (Gen.listCheckedNameFnGen a.wallet a.name) Gen.listActionGen) true true)) := by
+  unfold listAccounts
+  congr 1
+  funext path
+  cases listerPath path with
+  | none => rfl
+  | some p =>
+    obtain ⟨w, re?⟩ := p
+    simp only
+    congr 1
+    funext a
+    exact (listAccount_eq_model cfg client re? a).symm
+
+/-- **The shape.**  What the Go hands to which call: nil credentials are refused before anything is listed; ONE result
+    slice, made before the path loop; the paths in order; the wallet fetched for the PATH, its accounts for `wallet.Name()`;
+    the accounts in order; the expression matched against the account's own name; `checkAccess` for
+    `wallet.Name()/walletAccount.Name()` with the action "Access account" (`opAccess`), the same action for the rules;
+    the only append; the final result. -/
+theorem list_shape_is_source :
+    Gen.listShapeGen = [
+      "nil credentials: return core.ResultFailed, nil",
+      "result slice: accounts := make([]e2wtypes.Account, 0), before the path loop",
+      "path loop: for _, path := range paths",
+      "names: e2wallet.WalletAndAccountNames(path)",
+      "wallet: FetchWallet(ctx, path)",
+      "accounts of: FetchAccounts(ctx, wallet.Name())",
+      "account loop: for _, walletAccount := range walletAccounts",
+      "regex matched against: walletAccount.Name()",
+      "checkAccess name: fmt.Sprintf(\"%s/%s\", wallet.Name(), walletAccount.Name())",
+      "checkAccess action: Access account",
+      "RunRules action: Access account",
+      "RunRules data: []*ruler.RulesData{{WalletName: wallet.Name(), AccountName: walletAccount.Name(), PubKey: pubKey, Data: &rules.AccessAccountData{Paths: paths}}}",
+      "append: accounts = append(accounts, walletAccount)",
+      "finally: return core.ResultSucceeded, accounts"] ∧
+    Gen.listActionGen = opAccess ∧
+    (∀ w n : String, Gen.listCheckedNameFnGen w n = w ++ "/" ++ n) := by
+  refine ⟨rfl, by decide, fun _ _ => rfl⟩
 
 end Dirk
